@@ -46,9 +46,14 @@ mod scripting;
 mod shell;
 mod signals;
 mod types;
+#[cfg(cicada_verif)]
+mod verif;
 
 // #[allow(clippy::cast_lossless)]
 fn main() {
+    #[cfg(cicada_verif)]
+    verif::init();
+
     unsafe {
         libc::signal(libc::SIGPIPE, libc::SIG_DFL);
 
@@ -139,6 +144,8 @@ fn main() {
             // - https://man7.org/linux/man-pages/man7/signal-safety.7.html
             signals::unblock_signals();
         }
+        #[cfg(cicada_verif)]
+        verif::yield_point("prompt");
         match rl.read_line() {
             Ok(ReadResult::Input(line)) => {
                 if sig_handler_enabled {
